@@ -18,7 +18,8 @@ TECHNIQUE = "runtime reference-model monitor over generated include trees on dis
 RULE = ("a temporary tree per case: sub-programs on non-contiguous mode sets in arbitrary statement order, with and without parameters, nested "
         "includes to depth 4, sub-directories, repeated include lines (same and absolute+relative spelling); a main script calling each "
         "subroutine 1-4 times; load() with absolute and relative paths under 4 working directories; negative calls (arity, keywords); "
-        "non-trivial = a subroutine applied >=2 times, or nesting depth >=2, or a subroutine on >=3 non-contiguous modes; distinct by SHA-1 of the tree")
+        "non-trivial = a subroutine applied >=2 times, or nesting depth >=2, or a subroutine on >=3 non-contiguous modes; distinct by SHA-1 of the tree"
+        '; a fifth of the trees are first loaded with a faulty included file, which is then corrected')
 BUDGET = {"quick": 1200, "thorough": 16000}
 MIN_NONTRIVIAL = {"quick": 200, "thorough": 2000}
 REQUIRED_FUNCTIONS = ["listener.py:BlackbirdListener.exitInclude", "listener.py:BlackbirdListener.exitStatement", "__init__.py:load"]
